@@ -32,6 +32,7 @@ type WaitGroup struct {
 }
 
 func (wg *WaitGroup) init() {
+	verifGuard("fun.WaitGroup.init", &wg.mu)
 	if wg.cond == nil {
 		wg.cond = sync.NewCond(&wg.mu)
 	}
